@@ -5,7 +5,9 @@ Model: DecMT.tla -- the frame-level stage/row protocol (row hand-out under the r
 flags, the motion-field and end-of-frame barriers) explored exhaustively for 2-3 threads x 2-3 rows x 2 frames:
 each row once per stage, stage ordering, no stale start flag, resets only behind the barrier, completion.
 Code: the same streams (1..8 tiles) decoded with threads 1..16 under seeded schedule perturbation; Observe.tla
-requires the pictures of the 1-thread run; the decoder must tear down (no crash, no hang); thorough: ASan."""
+requires the pictures of the 1-thread run; the decoder must tear down (no crash, no hang); thorough: ASan.  The row jobs of every multi-threaded decode are recorded by
+guarded hooks (frame reset, recon row done, LF/CDEF/LR row begin and done-map updates) and validated event by event against
+DecRowsTrace.tla (direction B)."""
 import os
 import random
 
@@ -18,7 +20,7 @@ LEVEL = "model_checking"
 def run(res):
     res.cov["rule"] = ("cases = TLC configurations of DecMT.tla + (stream, decoder thread count, perturbation seed) decodes; all decodes of a "
                        "stream must equal the single-thread pictures; distinct by stream configuration x threads x seed")
-    res.assumptions += ["the real decoder is bound to DecMT.tla only observationally (equal pictures, clean teardown); no per-row trace hooks in the decoder",
+    res.assumptions += ["DecMT.tla (start flags, barriers) is bound observationally; the row-job dependencies are bound by trace validation (DecRowsTrace.tla)",
                         "'data race' in the C11 sense is not judged: the protocol is built on plain volatile flags and the model assumes word-atomic sequentially consistent accesses (x86-TSO for the orders it relies on)"]
     cfgs = ["DecMT.cfg", "DecMT_rows.cfg", "DecMT_live.cfg"] + (["DecMT_big.cfg"] if res.tier == "thorough" else [])
     for cfg in cfgs:
@@ -77,11 +79,17 @@ def run(res):
         c = r["case"]
         out = r["out"] + ".dec_t%d_s%d" % (t, s)
         args = ["--svt", "--threads", str(t), "--who", "svt", "-w", str(c["w"]), "-h", str(c["h"]), "--bits", str(c["bits"])]
+        if t > 1:
+            args += ["--trace", "dec", "--trace-out", out + ".trc"]     # row-job events of the multi-threaded stages
         if s:
             args += ["--perturb", "%d:%d:%d" % (rng.randrange(1, 10 ** 6), 200, 0)]      # yields only (the decoder busy-waits)
         d = common.run_dec(r["out"] + ".pkts", out, args, timeout=90, variant="hooks")
         if os.path.exists(out):
             os.unlink(out)
+        d["rows"] = None
+        if os.path.exists(out + ".trc"):
+            d["rows"] = [{"ev": "Reset", "a": []}] + [{"ev": ev, "a": a} for _, _, _, _, ev, a in vlib.read_trace(out + ".trc", "dec")]
+            os.unlink(out + ".trc")
         return r, t, s, d
     b = corpus.Bundle()
     # the decoder's stages busy-wait on plain flags: keep the host from being oversubscribed (<= 2 decodes at a time);
@@ -97,13 +105,19 @@ def run(res):
         if d["rc"] not in (0,) or not any(e["ev"] == "DecTeardown" for e in d["events"]):
             res.violation("multi-threaded decode crashed or did not tear down (rc=%s): %s" % (d["rc"], desc), d["log"][-800:], key=dict(key, kind="crash"))
         b.add("Observe", stream.observe_events(r["desc"], None, d), desc)
+        if d.get("rows") and len(d["rows"]) > 1:
+            b.add("DecRowsTrace", d["rows"], desc)
     res.sample({"observations": b.recs.get("Observe", [])[:4]})
+    res.sample({"row_job_trace_prefix": b.recs.get("DecRowsTrace", [])[:12]})
     def kf(rej):
         hit = [r for r in rs if rej["desc"].startswith(r["desc"])]
         st = hit[0]["case"]["sets"] if hit else {}
         lr = 1 if (st.get("enable_restoration_filtering", -1) == 1 or (st.get("enable_restoration_filtering", -1) == -1 and st.get("enc_mode", 8) <= 6)) else 0
         return {"kind": "mismatch", "loop_restoration": lr}
     b.validate(res, "Observe", "C09 multi-threaded = single-threaded pictures", key_fn=kf)
+    # the row-job protocol of every multi-threaded decode, event by event (DecRowsTrace.tla)
+    b.validate(res, "DecRowsTrace", "C09 decoder row-job protocol (recon -> LF -> CDEF -> LR dependencies, once per row, reset behind the barrier)",
+               key_fn=lambda rej: {"kind": "row_protocol", "event": (rej.get("event") or {}).get("ev")})
     if res.tier == "thorough":
         # oversubscribed regime: 10 concurrent decodes with up to 16 busy-waiting threads each and sleeps inside critical sections
         jo = [(r, t, 1 + i) for i, r in enumerate([x for x in rs if x["rc"] == 0][:2]) for t in (6, 10, 14, 16, 16)]
